@@ -39,13 +39,13 @@ def scenario(draw):
     for i in range(draw(st.integers(0, 2))):
         payloads.append({"id": 110 + i, "flavour": draw(st.sampled_from(ALL)), "role": "bystander", "reg": {"how": draw(st.sampled_from(["pre", "pre-service"]))},
                          "program": [["beat", 3, 1000000]], "end": ["forever"], "cleanup": {}})
-    callers = {"outside": [], "threading": [], "asyncio": [], "trio": []}
+    callers = {"outside": [], "outside2": [], "threading": [], "asyncio": [], "trio": []}
     n = draw(st.integers(1, 15))
     pid = 0
     nexec = 0
     for _ in range(n):
         pid += 1
-        caller = draw(st.sampled_from(["outside", "outside", "threading", "asyncio", "trio"]))
+        caller = draw(st.sampled_from(["outside", "outside2", "threading", "asyncio", "trio"]))
         if caller == "asyncio":
             flv = draw(st.sampled_from(["threading"] + (["trio"] if direction == "asyncio->trio" else [])))
         elif caller == "trio":
@@ -57,7 +57,7 @@ def scenario(draw):
             aflv = ALL if not (caller == "asyncio" and direction == "trio->asyncio") else ["asyncio", "threading"]
             p = {"id": pid, "flavour": draw(st.sampled_from(aflv)), "role": "adopted", "program": [["beat", 3, 1000000]], "end": ["forever"], "cleanup": {}}
             p.update(draw(arguments()))
-            p["reg"] = {"how": "outside" if caller == "outside" else "from"}
+            p["reg"] = {"how": "outside" if caller.startswith("outside") else "from"}
             callers[caller].append(("adopt", pid))
             payloads.append(p)
             continue
@@ -70,7 +70,9 @@ def scenario(draw):
         payloads.append(p)
         callers[caller].append(("execute", pid))
         nexec += 1
-    drivers = [[{"at_ms": 2 * i, "op": op, "pid": c} for i, (op, c) in enumerate(callers["outside"])]]
+    # two outside threads execute concurrently (their calls overlap and finish out of order)
+    drivers = [[{"at_ms": 2 * i, "op": op, "pid": c} for i, (op, c) in enumerate(callers["outside"])],
+               [{"at_ms": 2 * i + 1, "op": op, "pid": c} for i, (op, c) in enumerate(callers["outside2"])]]
     for flv in ALL:
         if callers[flv]:
             first = draw(st.sampled_from([0, 0, 2]))  # 0: the caller acts the moment it starts (while the runtime still unqueues)
@@ -171,7 +173,7 @@ def run_case(sc) -> Result:
     for p in sc["payloads"]:
         if p["role"] == "executed":
             res.cls(f"{p['flavour']}<-{p['caller']}:{p['kind']}")
-            if p["kind"] != "none" and p["caller"] != "outside":
+            if p["kind"] != "none" and not p["caller"].startswith("outside"):
                 nt = True
     res.cls("direction:" + sc["direction"], "executes:%s" % ("1" if sc["nexec"] <= 1 else "2-5" if sc["nexec"] <= 5 else ">5"))
     res.nontrivial = nt
